@@ -319,7 +319,11 @@ def run_template(M, tmpl, aspects, binary, workdir, par=16, timeout=600):
     rows, stats = X.explore(M, pf, par=par, timeout=timeout, tag=tmpl['name'][:20])
     res = {'name': tmpl['name'], 'stats': stats, 'paths': len(rows), 'replayed': 0, 'replay_ok': 0, 'violations': [], 'inconclusive': [],
            'silent': 0, 'cases': 0, 'ref_kinds': {}, 'samples': []}
-    if stats['timed_out']: res['inconclusive'].append('exploration timed out after %ss' % timeout)
+    if stats['timed_out']:
+        # a sampled program (random family) that does not finish within its budget is dropped from the sample and reported as such: the
+        # paths explored so far are still checked; a template that is part of a stated bound makes the run inconclusive
+        if tmpl.get('droppable'): res['dropped'] = 'exploration stopped at the %ss budget' % timeout
+        else: res['inconclusive'].append('exploration timed out after %ss' % timeout)
     for r in rows:
         if r['status'] != 'ok':
             res['inconclusive'].append('%s: %s' % (r['status'], r['detail'][:300])); continue
